@@ -2456,7 +2456,13 @@ impl Connection {
                         }
                     }
 
-                    if !self.state.is_closed() {
+                    // Retry and Version Negotiation packets carry no packet protection: whether
+                    // they are genuine is only known once their handlers have looked at them
+                    let unprotected = matches!(
+                        packet.header,
+                        Header::Retry { .. } | Header::VersionNegotiate { .. }
+                    );
+                    if !self.state.is_closed() && !unprotected {
                         let spin = match packet.header {
                             Header::Short { spin, .. } => spin,
                             _ => false,
@@ -2585,7 +2591,7 @@ impl Connection {
                     return Ok(());
                 }
 
-                if self.total_authed_packets > 1
+                if self.total_authed_packets > 0
                             || packet.payload.len() <= 16 // token + 16 byte tag
                             || !self.crypto.is_valid_retry(
                                 self.rem_cids.active(),
@@ -2601,16 +2607,13 @@ impl Connection {
                     //   field.
                     // - Clients MUST discard Retry packets that have a Retry Integrity Tag
                     //   that cannot be validated
-                    //
-                    // Retry packets carry no packet protection, so a discarded one was never
-                    // authenticated: don't let it count, or a corrupted or forged Retry would make
-                    // us ignore the genuine Retry (or Version Negotiation) that follows.
-                    self.total_authed_packets -= 1;
                     return Ok(());
                 }
 
                 trace!("retrying with CID {}", rem_cid);
                 let client_hello = state.client_hello.take().unwrap();
+                // The integrity tag verified: from here on this counts as a server packet
+                self.on_packet_authenticated(now, SpaceId::Initial, None, None, false, false);
                 self.retry_src_cid = Some(rem_cid);
                 self.rem_cids.update_initial_cid(rem_cid);
                 self.rem_handshake_cid = rem_cid;
@@ -2785,7 +2788,7 @@ impl Connection {
                 Ok(())
             }
             Header::VersionNegotiate { .. } => {
-                if self.total_authed_packets > 1 {
+                if self.total_authed_packets > 0 {
                     return Ok(());
                 }
                 let supported = packet
